@@ -40,7 +40,8 @@ def required_cells(tier):
             "controls": 3, "system:td": 2, "kind:nontp": 1, "kind:channel": 1,
             "commuting-order": 2, "summed-sd": 1, "trivial-pt": 1,
             "kind:rotdeph": 2, "via-import:file": 1, "via-import:simple": 1,
-            "controls:stacked": 1}
+            "controls:stacked": 1, "transform:one-sided": 2,
+            "history:tensor-replaced": 2}
 
 
 def cases(tier, seed):
@@ -68,6 +69,10 @@ def _pt_for_env(rng, env, nsteps, dt, i):
             tin = gen.cplx(rng, (d2, d2)) + 2 * np.eye(d2)
             tout = gen.cplx(rng, (d2, d2)) + 2 * np.eye(d2)
         transform = (tin, tout)
+        if i % 9 == 4:
+            transform = (tin, None)        # one-sided transforms
+        elif i % 9 == 7:
+            transform = (None, tout)
     return rank3, transform
 
 
@@ -111,6 +116,8 @@ def run_ancilla(case):
             cells.append("rank3")
         if transform is not None:
             cells.append("transform")
+            if transform[0] is None or transform[1] is None:
+                cells.append("transform:one-sided")
         if caps == "compute":
             cells.append("caps:compute")
     skind = "td" if i % 4 == 3 else "const"
@@ -203,6 +210,31 @@ def run_ancilla(case):
             violations.append({"what": "time axis wrong",
                                "mechanism": "times",
                                "detail": {"times": list(dyn.times)}})
+    # history: tensors of a process tensor that was already contracted are
+    # replaced through set_mpo_tensor and the object is contracted again
+    if nenv and via is None and not violations and i % 3 == 0 \
+            and desc[0]["caps"] == "explicit" and not desc[0]["transform"] \
+            and desc[0]["kind"] in ("unitary", "channel", "dephasing"):
+        newenv = ancilla.random_env(rng, d, desc[0]["e"], desc[0]["kind"])
+        ksteps = sorted(set(int(x) for x in rng.integers(0, nsteps, size=2)))
+        envs[0].step_kraus = {k: newenv.kraus for k in ksteps}
+        newt = ancilla.rank3_tensors(envs[0], nsteps) if desc[0]["rank3"] \
+            else envs[0].tensors(nsteps)
+        for k in ksteps:
+            pts[0].set_mpo_tensor(k, newt[k])
+        dyn2 = oqupy.compute_dynamics(sysd["oq"], rho0, **kw)
+        ref2 = ancilla.dense_dynamics(d, envs, rho0, nsteps, hp, pre, post,
+                                      order=list(perm))
+        e2 = float(np.abs(np.array(dyn2.states) - ref2).max())
+        err = max(err, e2)
+        cells.append("history:tensor-replaced")
+        if e2 > tol:
+            violations.append({
+                "what": f"after replacing the MPO tensors of steps {ksteps} "
+                        f"(set_mpo_tensor on an already contracted process "
+                        f"tensor, {desc[0]}) compute_dynamics differs from "
+                        f"the dense evolution by {e2:.3e}",
+                "mechanism": "stale-after-set-mpo-tensor", "detail": {}})
     sig = (d, tuple((x["kind"], x["e"], x["rank3"], x["transform"],
                      x["caps"]) for x in desc), skind, len(cdesc), nsteps,
            perm)
@@ -233,9 +265,14 @@ def build_pt(env, nsteps, dt, rank3, transform, caps):
     kw = {}
     if transform is not None:
         tin, tout = transform
-        kw = dict(transform_in=tin, transform_out=tout)
+        d2 = env.d ** 2
+        if tin is not None:
+            kw["transform_in"] = tin
+        if tout is not None:
+            kw["transform_out"] = tout
         if not rank3:
-            tin_inv, tout_inv = np.linalg.inv(tin), np.linalg.inv(tout)
+            tin_inv = np.linalg.inv(tin) if tin is not None else np.eye(d2)
+            tout_inv = np.linalg.inv(tout) if tout is not None else np.eye(d2)
             tens = [np.einsum('ij,abjp,po->abio', tin_inv, t, tout_inv)
                     for t in tens]
     pt = oqupy.SimpleProcessTensor(env.d, dt=dt, **kw)
